@@ -109,8 +109,8 @@ class C19:
         jcmd = ['java', '-Xss16m', '-XX:+UseSerialGC', '-XX:TieredStopAtLevel=1', '-cp', os.path.join(jd, 'classes'), 'XrlDrv']
         return dict(cdrv=cdrv, jcmd=jcmd, protos=protos, dat_size=os.path.getsize(dat), java_sources=[os.path.basename(s) for s in srcs + extra])
 
-    def build_kissel(self, ctx):
-        sc = ctx.sc; root = sc.path('kroot'); os.makedirs(os.path.join(root, 'data'), exist_ok=True)
+    def build_kissel(self, ctx, kind='synth'):
+        sc = ctx.sc; root = sc.path('kroot' + kind); os.makedirs(os.path.join(root, 'data'), exist_ok=True)
         for f in os.listdir(os.path.join(REPO, 'data')):
             src = os.path.join(REPO, 'data', f); dst = os.path.join(root, 'data', f)
             if f != 'kissel_pe.dat' and os.path.isfile(src) and not os.path.exists(dst): os.symlink(src, dst)
@@ -118,9 +118,12 @@ class C19:
             for Z, es in self.edges_c.items():
                 for s_, e in enumerate(es):
                     if e: f.write('%d %d %.17g\n' % (Z, s_, e))
-        p = subprocess.run([sys.executable, os.path.join(VERIF, 'tools', 'synth_kissel.py'), sc.path('edges.txt'), os.path.join(root, 'data', 'kissel_pe.dat')], capture_output=True, text=True)
-        if p.returncode != 0: raise BuildError('synth_kissel.py failed: ' + p.stderr[-1000:])
-        return self.build(ctx, data_root=root, tag='K')
+        if kind == 'real':   # the Kissel table regenerated from the raw files of data/kissel (port of kissel.pro)
+            p = subprocess.run([sys.executable, os.path.join(VERIF, 'tools', 'regen_kissel.py'), os.path.join(REPO, 'data', 'kissel'), os.path.join(root, 'data', 'kissel_pe.dat')], capture_output=True, text=True)
+        else:
+            p = subprocess.run([sys.executable, os.path.join(VERIF, 'tools', 'synth_kissel.py'), sc.path('edges.txt'), os.path.join(root, 'data', 'kissel_pe.dat')], capture_output=True, text=True)
+        if p.returncode != 0: raise BuildError('%s kissel table failed: ' % kind + p.stderr[-1000:])
+        return self.build(ctx, data_root=root, tag='K' + kind)
 
     # ------------------------------------------------------------------------------------------ compare
     def judge(self, line, c_ans, j_ans, stats):
@@ -278,11 +281,13 @@ class C19:
             stats.pop('_tight')
             # second data configuration: synthetic Kissel tables, to drive the Kissel / cascade code of both implementations
             t = time.time()
-            bk = self.build_kissel(ctx)
             kre = re.compile(r'Kissel|Photo_Total|Photo_Partial|^ElectronConfig$|^P[LM]\d_')
             kl = [l for l in lines if kre.search(l.split(' ')[0])]
-            ck, jk = self.two_way(bk, kl, 5000)
-            for l, ca, ja in zip(kl, ck, jk): account(l, ca, ja, '@kissel')
+            for kind in (('real', 'synth') if ctx.tier == 'thorough' else ('real',) if ctx.seed % 2 else ('synth',)):
+                bk = self.build_kissel(ctx, kind)
+                ck, jk = self.two_way(bk, kl, 5000)
+                for l, ca, ja in zip(kl, ck, jk): account(l, ca, ja, '@kissel' if kind == 'synth' else '@kissel-real')
+                stats.setdefault('kissel_configs', []).append(kind)
             ctx.tick('kissel_config', t)
             samples = [dict(call=lines[i], c=c[i][:200], java=j[i][:200]) for i in sorted(ctx.rng.sample(range(len(lines)), 8))]
             ctx.rule = rule.replace('every _XRL_FUNCTION wrapper', 'every Java method with a C counterpart (%d scalar + %d object/crystal methods)' % (len(plan['scalar']), len(plan['hand'])))
